@@ -49,6 +49,10 @@ func (e *Env) ty(t types.Type) *sx.Node {
 		return e.ty(types.Unalias(x))
 	case *types.Basic:
 		name, ok := basicNames[x.Kind()]
+		// byte and rune are identical to uint8 and int32 for Go, but the code keys its tables on the type's text
+		if x.Name() == "byte" || x.Name() == "rune" {
+			name = x.Name()
+		}
 		if !ok {
 			e.unsupported("basic kind " + x.String())
 			name = "invalid"
@@ -82,10 +86,11 @@ func (e *Env) ty(t types.Type) *sx.Node {
 			if f.Pkg() != nil {
 				pkg = f.Pkg().Path()
 			}
+			fn := sx.H("f", sx.S(f.Name()), sx.B(f.Exported()), sx.B(f.Embedded()), sx.S(pkg), e.ty(f.Type()))
 			if x.Tag(i) != "" {
-				e.unsupported("struct tag")
+				fn.Add(sx.S(x.Tag(i))) // part of the type's identity
 			}
-			n.Add(sx.H("f", sx.S(f.Name()), sx.B(f.Exported()), sx.B(f.Embedded()), sx.S(pkg), e.ty(f.Type())))
+			n.Add(fn)
 		}
 		return n
 	case *types.Interface:
